@@ -195,6 +195,9 @@ def _refine_into(test, val: bool, f: dict):
         elif isinstance(test.op, ast.Or) and not val:
             for v in test.values:
                 _refine_into(v, False, f)
+    elif isinstance(test, ast.Call) and isinstance(test.func, ast.Name) and test.func.id == 'isinstance' and val and \
+            len(test.args) == 2 and isinstance(test.args[0], ast.Name):
+        _set(f, test.args[0].id, NOTNONE)       # an instance of a class is not None
     elif isinstance(test, ast.Compare) and len(test.ops) == 1:
         left = test.left
         if isinstance(left, ast.NamedExpr):
@@ -366,7 +369,7 @@ class ConstFlow:
             names = set()
             for d in cur:
                 for k, _ in d:
-                    if k[:1] != '$':
+                    if k[:1] != '$' and k not in self.keep:
                         names.add(k)
             if not names:
                 break
